@@ -19,7 +19,7 @@ from harness import clients, clientsim
 
 ID = 'C08'
 LEVEL = 'model_checking'
-PEER = ['own', 'own-exception', 'stale', 'stale+own', 'other-unit', 'other-function', 'nothing']
+PEER = ['own', 'own-exception', 'stale', 'stale+own', 'other-unit', 'unit-0', 'unit-255', 'other-function', 'nothing']
 REQS = ['read-registers', 'read-coils', 'write-single', 'write-registers', 'mask-write', 'diagnostic']
 HISTORIES = {'none': (), 'one-ok': ('write-single',), 'one-late': (('read-registers', 'late'),),
              'ok+late': ('write-single', ('read-registers', 'late'))}
